@@ -27,6 +27,10 @@ class EB(BaseException):
     batch function re-raises when something it awaits was cancelled)"""
 
 
+class ModelOutOfFuel(Exception):
+    pass
+
+
 class E(Exception):
     def __len__(self):          # falsy when its code is even: `if exc:` and concurrent.futures' result() overlook it
         return int(self.args[0]) % 2 if self.args and isinstance(self.args[0], int) else 1
@@ -165,6 +169,9 @@ def parse_model(ans):
                  ('exc', int(o[1])) if o[0] == 'exc' else ('cancelled',)
             evs.append(('done', int(p[1]), int(p[2]), oc))
     pending = [int(x) for x in d['pending'].split(',')] if d.get('pending') else []
+    if d.get('fuel') == '0':
+        # the theorems about the retention window assume that the machine fired everything that was due
+        raise ModelOutOfFuel(ans[:200])
     return d.get('tie') == '1', evs, pending
 
 
